@@ -25,18 +25,24 @@ structure IM where
   /-- module ↦ the name (for `from` / `as`) or dotted path (plain import) configurables are printed under -/
   selectors : AList (List String) (List String) := []
   names : List String := []
+  /-- names treated as taken from the start: `gin` when the manager works for dynamic registration -/
+  reserved : List String := []
 deriving Inhabited
+
+/-- names no import of a dynamic-registration file may bind (`process_import` refuses them): the manager treats
+    them as taken from the start -/
+def reservedNames : List String := ["gin"]
 
 /-- `ImportManager.add_import` -/
 def IM.add (im : IM) (st : Import) : Option IM :=
   if (lookup st.module im.selectors).isSome then some im else
-  match uniquify st.boundName im.names with
+  match uniquify st.boundName (im.reserved ++ im.names) with
   | none => none
   | some u =>
     let st' := if u = st.boundName then st else { st with alias := some u }
     let sel := if st'.isFrom || st'.alias.isSome then [st'.boundName] else st'.module
     some { imports := im.imports ++ [st'], selectors := im.selectors ++ [(st.module, sel)],
-           names := im.names ++ [st'.boundName] }
+           names := im.names ++ [st'.boundName], reserved := im.reserved }
 
 def IM.addAll (im : IM) : List Import → Option IM
   | [] => some im
@@ -53,8 +59,15 @@ def Import.key (i : Import) : List String × List String :=
 def importLe (a b : Import) : Bool :=
   if a.key.1 == b.key.1 then lexLe a.key.2 b.key.2 else lexLe a.key.1 b.key.1
 
-/-- `ImportManager(imports)`: the recorded statements are added in sorted order -/
-def IM.ofRecorded (l : List Import) : Option IM := ({} : IM).addAll (sortBy importLe l)
+/-- the statement that switches dynamic registration on -/
+def isEnabling (i : Import) : Bool := i.isFrom && i.module == ["__gin__", "dynamic_registration"]
+
+/-- a manager without imports: for dynamic registration the reserved names count as taken -/
+def IM.fresh (dyn : Bool) : IM := { reserved := if dyn then reservedNames else [] }
+
+/-- `ImportManager(imports)`: dynamic registration is on iff the enabling statement is among the recorded ones;
+    the recorded statements are added in sorted order -/
+def IM.ofRecorded (l : List Import) : Option IM := (IM.fresh (l.any isEnabling)).addAll (sortBy importLe l)
 
 /-- what `config_str()` asks the manager for: the import statement a configurable needs (its recorded import
     source, or one made from its module), together with the configurable's complete selector -/
